@@ -107,6 +107,13 @@ def main(run):
                     events.append(dict(o, adapter=adapter, op=op, script=[['*', 0, kind]], nfaults=999, persistent=True, budget=budget, predicted='error'))
                     run.case((adapter, op, 'persistent', kind))
                 run.coverage.setdefault('measured_budgets', {})['%s.%s' % (adapter, op)] = measured
+        # a real file as the source behind the rate-limit wrapper with a finite limit (upload-objects --rate-limit): a fault in mid-transfer,
+        # the rewind, the retry - the object must be exactly the file
+        bigp = bytes((i * 31 + 7) % 251 for i in range(150_000))
+        for script in ([(1, 1, 'io')], [(1, 2, 'io')], [(1, 1, 'io'), (2, 2, 'io')]):
+            o = faults.run_local('upload_stream', script, bigp, root / 'rf', realfile=True, limit=10 ** 9, chunk=4096) if (root / 'rf').mkdir(exist_ok=True) is None else None
+            events.append(dict(o, adapter='local', op='upload_stream', script=[list(x) for x in script], nfaults=len(script), persistent=False, budget=3, predicted='~'))
+            run.case(('local', 'upload_stream-real-file', tuple(script)))
         # listings whose pages are large (hundreds of kilobytes) and break in mid-body: after the retry every name appears exactly once
         for adapter in ('s3', 'b2'):
             for script in ([(1, 1, 'io')], [(1, 2, 'io')], [(1, 3, 'io')], [(1, 2, 'io'), (2, 3, 'io')], [(2, 3, 'io')]):
